@@ -362,7 +362,7 @@ static int guarded_call(int kind, const char* what, double timeout_s)
 
 // ---- per-acquisition result + oracles ---------------------------------------------------------------------------------
 static struct { unsigned long cases, acqs, frames_cam, frames_sto, frames_client, wraps, sleeps, stops, aborts, two_stream, avg_acqs, faults_cam,
-                faults_sto, instants_hit[END_N], instants_missed[END_N], client_pat[CL_N], late_join, restarts_without_configure, c08_programs, c08_calls, reconfig_switch,
+                faults_sto, instants_hit[END_N], instants_missed[END_N], client_pat[CL_N], late_join, restarts_without_configure, faults_with_averaging, only_stream1_acqs, c08_programs, c08_calls, reconfig_switch,
                 writer_asleep_at_fault, dead_filter_aborts, avg_windows, nondiv8, shape_changes, holds_across_end, real_dev_acqs, zero_frames; } C;
 static vset g_sigs;
 
@@ -829,8 +829,9 @@ static void run_case(const char* mode, uint64_t seed, unsigned long icase, int v
     vbuf_reset(&g_log); g_case_violated = 0;
     M->prf_key = vrng_u64(&g);
     int two = vrng_chance(&g, 1, 4);
+    int only1 = !two && vrng_chance(&g, 1, 8); // one case in eight configures the second stream only (stream 0 stays disabled)
     int is10 = !strcmp(mode, "c10"), is09 = !strcmp(mode, "c09"), is07 = !strcmp(mode, "c07"), is06 = !strcmp(mode, "c06"), is05 = !strcmp(mode, "c05");
-    int may_avg = is10 || (!is09 && vrng_chance(&g, 1, is07 ? 2 : 4));
+    int may_avg = is10 || vrng_chance(&g, 1, is07 ? 2 : 4);
     // base shapes decide the ring: 1.2 .. 20 frames (of the largest frame of this case)
     struct acq_cfg base; memset(&base, 0, sizeof base);
     gen_stream(&g, &base.s[0], mode, is10);
@@ -847,6 +848,7 @@ static void run_case(const char* mode, uint64_t seed, unsigned long icase, int v
         if (g_cap_sink[i] <= per + 8) g_cap_sink[i] = per + 64;
         if (g_cap_filter[i] <= fb + 8) g_cap_filter[i] = fb + 64;
     }
+    if (only1) { g_cap_sink[1] = g_cap_sink[0]; g_cap_filter[1] = g_cap_filter[0]; }
     vbuf_printf(&g_log, "ring sink=%zu/%zu filter=%zu streams=%d | ", g_cap_sink[0], frame_bytes(base.s[0].w, base.s[0].h, base.s[0].type), g_cap_filter[0], 1 + two);
     g_sink[0] = g_sink[1] = 0; g_filter[0] = g_filter[1] = 0;
     atomic_store(&g_live_workers, 0);
@@ -897,9 +899,9 @@ static void run_case(const char* mode, uint64_t seed, unsigned long icase, int v
         if (a.client != CL_NONE && a.end != END_WAIT_DONE_THEN_STOP) {
             // stop() waits for completion and the client cannot poll while it is inside stop(): only
             // issue an early stop when the rest of the acquisition fits into the ring anyway
-            const struct stream_cfg* cs_ = &a.s[client_stream];
+            const struct stream_cfg* cs_ = &a.s[a.client_stream];
             size_t per = frame_bytes(cs_->w, cs_->h, cs_->avg > 1 ? SampleType_f32 : cs_->type);
-            if (cs_->N * per > g_cap_sink[client_stream] / 2) a.end = END_WAIT_DONE_THEN_STOP;
+            if (cs_->N * per > g_cap_sink[a.client_stream] / 2) a.end = END_WAIT_DONE_THEN_STOP;
         }
         // C07: aborted acquisitions alternate with ordinary ones, which must then be complete and clean
         if ((is07 && (q % 2 == 0 || vrng_chance(&g, 1, 4))) || (is06 && vrng_chance(&g, 1, 3))) {
@@ -919,7 +921,7 @@ static void run_case(const char* mode, uint64_t seed, unsigned long icase, int v
             int i = a.s[1].on ? (int)vrng_below(&g, 2) : 0;
             a.fault = 1 + (int)vrng_below(&g, 2);
             long k = vrng_chance(&g, 1, 3) ? (long)vrng_below(&g, 3) : (long)vrng_below(&g, a.s[i].N < 60 ? a.s[i].N : 60);
-            a.s[i].avg = 0;
+            if (a.s[i].avg > 1) ++C.faults_with_averaging;
             if (a.fault == 1) { a.s[i].cam.fail_at_call = k; ++C.faults_cam; }
             else {
                 a.s[i].sto.fail_at_frame = a.s[i].avg > 1 ? k / a.s[i].avg : k; ++C.faults_sto;
@@ -939,11 +941,13 @@ static void run_case(const char* mode, uint64_t seed, unsigned long icase, int v
         if (a.no_configure && a.client == CL_HOLD)
             for (int i = 0; i < 2; ++i) if (a.s[i].on && a.s[i].N > 60 && a.s[i].N != (uint64_t)-1) a.client = CL_EAGER; // the frame count cannot be changed without configuring
         if (a.client != CL_NONE && (a.end == END_STOP_NOW || a.end == END_STOP_DELAY)) {
-            const struct stream_cfg* cs_ = &a.s[client_stream];
+            const struct stream_cfg* cs_ = &a.s[a.client_stream];
             size_t per = frame_bytes(cs_->w, cs_->h, cs_->avg > 1 ? SampleType_f32 : cs_->type);
-            if (cs_->N * per > g_cap_sink[client_stream] / 2) a.end = END_WAIT_DONE_THEN_STOP;
+            if (cs_->N * per > g_cap_sink[a.client_stream] / 2) a.end = END_WAIT_DONE_THEN_STOP;
         }
         if (a.client == CL_HOLD) for (int i = 0; i < 2; ++i) if (a.s[i].on && a.s[i].N > 60 && a.s[i].N != (uint64_t)-1) a.s[i].N = vrng_range(&g, 5, 60);
+        if (only1 && a.s[0].on) { a.s[1] = a.s[0]; memset(&a.s[0], 0, sizeof a.s[0]); a.s[0].cam.fail_at_call = -1; a.s[0].sto.fail_at_frame = -1; a.client_stream = 1; }
+        if (only1) ++C.only_stream1_acqs;
         vbuf_printf(&g_log, "acq%d%s{", q, a.no_configure ? "(no configure)" : "");
         for (int i = 0; i < 2; ++i)
             if (a.s[i].on)
@@ -1098,10 +1102,10 @@ int main(int argc, char** argv)
            "\"ring_wraps\":%lu,\"writer_sleeps\":%lu,\"stops\":%lu,\"aborts\":%lu,\"two_stream_acqs\":%lu,\"averaging_acqs\":%lu,\"averaged_windows_checked\":%lu,"
            "\"aborts_with_dead_filter\":%lu,\"camera_faults\":%lu,\"storage_faults\":%lu,\"faults_with_writer_asleep\":%lu,\"late_joins\":%lu,\"holds_across_end\":%lu,\"frame_sizes_not_div8\":%lu,"
            "\"shape_change_acqs\":%lu,\"zero_size_acqs\":%lu,\"real_device_acqs\":%lu,\"programs\":%lu,\"program_calls\":%lu,\"device_switches\":%lu,\"api_calls\":%d,"
-           "\"device_events\":%zu,\"restarts_without_configure\":%lu,\"distinct\":%zu",
+           "\"device_events\":%zu,\"restarts_without_configure\":%lu,\"faults_with_averaging\":%lu,\"only_second_stream_acqs\":%lu,\"distinct\":%zu",
            g_mode, C.cases, g_nviol, C.acqs, C.frames_cam, C.frames_sto, C.frames_client, C.wraps, C.sleeps, C.stops, C.aborts, C.two_stream, C.avg_acqs,
            C.avg_windows, C.dead_filter_aborts, C.faults_cam, C.faults_sto, C.writer_asleep_at_fault, C.late_join, C.holds_across_end, C.nondiv8, C.shape_changes, C.zero_frames,
-           C.real_dev_acqs, C.c08_programs, C.c08_calls, C.reconfig_switch, g_api_calls, M->nevents, C.restarts_without_configure, g_sigs.n);
+           C.real_dev_acqs, C.c08_programs, C.c08_calls, C.reconfig_switch, g_api_calls, M->nevents, C.restarts_without_configure, C.faults_with_averaging, C.only_stream1_acqs, g_sigs.n);
     for (int i = 0; i < END_N; ++i) printf(",\"end_%s\":%lu,\"end_%s_missed\":%lu", k_end[i], C.instants_hit[i], k_end[i], C.instants_missed[i]);
     for (int i = 0; i < CL_N; ++i) printf(",\"client_%s\":%lu", k_client[i], C.client_pat[i]);
     printf("}\n");
